@@ -1,0 +1,47 @@
+//go:build verif
+
+package gpkg
+
+import (
+	"database/sql"
+	"math"
+
+	"github.com/go-spatial/geom"
+	"github.com/go-spatial/geom/cmp"
+	ggpkg "github.com/go-spatial/geom/encoding/gpkg"
+	"github.com/mattn/go-sqlite3"
+)
+
+func init() {
+	ext := func(b []byte) *geom.Extent {
+		sb, err := ggpkg.DecodeGeometry(b)
+		if err != nil || sb == nil || cmp.IsEmptyGeo(sb.Geometry) {
+			return nil
+		}
+		e, err := geom.NewExtentFromGeometry(sb.Geometry)
+		if err != nil {
+			return nil
+		}
+		return e
+	}
+	sql.Register(ggpkg.SPATIALITE, &sqlite3.SQLiteDriver{
+		ConnectHook: func(conn *sqlite3.SQLiteConn) error {
+			if err := conn.RegisterFunc("ST_IsEmpty", func(b []byte) bool { return ext(b) == nil }, true); err != nil {
+				return err
+			}
+			for name, idx := range map[string]int{"ST_MinX": 0, "ST_MinY": 1, "ST_MaxX": 2, "ST_MaxY": 3} {
+				idx := idx
+				if err := conn.RegisterFunc(name, func(b []byte) float64 {
+					e := ext(b)
+					if e == nil {
+						return math.NaN()
+					}
+					return e[idx]
+				}, true); err != nil {
+					return err
+				}
+			}
+			return nil
+		},
+	})
+}
